@@ -131,8 +131,26 @@ class TlcResult:
         self.ok = False
         self._parse()
 
-    def _parse(self):
+    def _joined_lines(self):
+        """TLC wraps printed values longer than ~80 characters over several lines: join them."""
+        buf = None
         for line in self.out.splitlines():
+            if buf is not None:
+                buf += " " + line.strip()
+                if line.rstrip().endswith(">>"):
+                    yield buf
+                    buf = None
+                elif len(buf) > 100000:
+                    buf = None
+                continue
+            st = line.lstrip()
+            if st.startswith("<<") and not line.rstrip().endswith(">>") and st[2:].lstrip().startswith('"'):
+                buf = "<<" + st[2:].lstrip()
+                continue
+            yield line
+
+    def _parse(self):
+        for line in self._joined_lines():
             m = re.match(r"^(\d+) states generated, (\d+) distinct states found", line)
             if m:
                 self.generated = int(m.group(1))
